@@ -677,6 +677,27 @@ pub enum TextSpace {
     },
     /// Programs whose diagnostics quote long non-ASCII source text.
     Messages,
+    /// Every string of <= 5 characters over the alphabet of a token class, as a token of that
+    /// class.
+    Lexemes,
+}
+
+pub fn p_lexemes() -> Value {
+    json!({"space": "lexemes"})
+}
+
+/// Alphabets of the token classes that have one of their own, each with its prefix and a
+/// context: path segments, property names, identifiers, references.
+pub const LEXEME_CLASSES: [(&str, &str, &str, &[char]); 4] = [
+    ("path segment", "let a = /", ";\n", &['a', '1', 'c', 'F', '%', '~', '.', '-', '_']),
+    ("property name", "let a = '", " str;\n", &['a', '1', '$', '@', '_', '-']),
+    ("identifier", "let a", " = num;\n", &['a', '1', '$', '_', '-', 'X']),
+    ("reference", "let @", " = {};\n", &['a', '1', '$', '_', '-']),
+];
+pub const LEXEME_MAX: usize = 5;
+
+fn lexeme_count(k: usize) -> u64 {
+    (1..=LEXEME_MAX).map(|l| pow(LEXEME_CLASSES[k].3.len(), l)).sum()
 }
 
 pub fn p_messages() -> Value {
@@ -964,6 +985,7 @@ impl TextSpace {
             }
             "numbers" => TextSpace::Numbers,
             "messages" => TextSpace::Messages,
+            "lexemes" => TextSpace::Lexemes,
             "pairs" => TextSpace::Pairs { exprs: std::sync::Arc::new(pair_exprs()) },
             "nest" => TextSpace::Nest {
                 cases: nest_cases(p["thorough"].as_bool().unwrap_or(false)),
@@ -989,6 +1011,7 @@ impl TextSpace {
             TextSpace::Numbers => number_texts().len() as u64,
             TextSpace::Pairs { exprs } => (exprs.len() * exprs.len() * PAIR_CONTEXTS.len()) as u64,
             TextSpace::Messages => message_texts().len() as u64,
+            TextSpace::Lexemes => (0..LEXEME_CLASSES.len()).map(lexeme_count).sum(),
         }
     }
 
@@ -1039,6 +1062,21 @@ impl TextSpace {
             TextSpace::Imports => import_texts()[idx as usize].clone(),
             TextSpace::Numbers => number_texts()[idx as usize].clone(),
             TextSpace::Messages => message_texts()[idx as usize].clone(),
+            TextSpace::Lexemes => {
+                let mut rest = idx;
+                let mut k = 0;
+                while rest >= lexeme_count(k) {
+                    rest -= lexeme_count(k);
+                    k += 1;
+                }
+                let (name, pre, post, alpha) = LEXEME_CLASSES[k];
+                let mut len = 1;
+                while rest >= pow(alpha.len(), len) {
+                    rest -= pow(alpha.len(), len);
+                    len += 1;
+                }
+                (format!("{pre}{}{post}", chars_text(alpha, len, rest)), format!("{name} of {len} characters"))
+            }
             TextSpace::Pairs { exprs } => {
                 let n = exprs.len() as u64;
                 let (c, rest) = ((idx / (n * n)) as usize, idx % (n * n));
